@@ -91,3 +91,56 @@ Proof.
   - rewrite <- H, N.eqb_refl. reflexivity.
   - apply negb_false_iff, N.eqb_eq in H. exact H.
 Qed.
+
+(* ---------- equal content gives equal hashes ---------- *)
+(* two stores have the same content when their nodes hold rows with equal XOR of checksums (in
+   particular: the same points in any row order) and their edge lists agree position by position
+   on everything except the stored hash *)
+Definition same_edge (a b : edge) : Prop :=
+  e_up a = e_up b /\ e_down a = e_down b /\ e_pts a = e_pts b.
+
+Definition same_content (s1 s2 : store) : Prop :=
+  (forall id, xor_crcs (node_rows (s_nodes s1) id) = xor_crcs (node_rows (s_nodes s2) id)) /\
+  Forall2 same_edge (s_edges s1) (s_edges s2).
+
+Lemma childs_same G1 G2 v : Forall2 same_edge G1 G2 -> Forall2 same_edge (childs G1 v) (childs G2 v).
+Proof.
+  induction 1 as [|a b G1 G2 Hab _ IH]; [constructor|]. unfold childs in *. cbn [filter].
+  pose proof Hab as (Hu & _ & _). rewrite Hu. destruct (bytes_eqb (e_up b) v); [constructor; assumption|exact IH].
+Qed.
+
+Lemma xorl_same (f g : edge -> N) l1 l2 : Forall2 (fun a b => f a = g b) l1 l2 -> xorl f l1 = xorl g l2.
+Proof. induction 1 as [|a b l1 l2 Hab _ IH]; [reflexivity|]. cbn [GraphCount.xorl]. rewrite Hab, IH. reflexivity. Qed.
+
+Lemma Forall2_weaken {A B} (R Q : A -> B -> Prop) l1 l2 :
+  Forall2 R l1 l2 -> (forall a b, In a l1 -> In b l2 -> R a b -> Q a b) -> Forall2 Q l1 l2.
+Proof.
+  induction 1 as [|a b l1 l2 Hab _ IH]; intros H; [constructor|]. constructor.
+  - apply H; [left; reflexivity|left; reflexivity|exact Hab].
+  - apply IH. intros x y Hx Hy. apply H; right; assumption.
+Qed.
+
+Lemma Forall2_len {A B} (R : A -> B -> Prop) l1 l2 : Forall2 R l1 l2 -> length l1 = length l2.
+Proof. induction 1; cbn; congruence. Qed.
+
+Lemma merkle_same s1 s2 : same_content s1 s2 -> forall f a b, same_edge a b -> merkle f s1 a = merkle f s2 b.
+Proof.
+  intros [Hn He]. induction f as [|f IH]; intros a b Hab; [reflexivity|]. cbn [merkle].
+  destruct Hab as (Hu & Hd & Hp). f_equal.
+  - unfold local. rewrite Hd, Hp, Hn. reflexivity.
+  - apply xorl_same. rewrite Hd. eapply Forall2_weaken; [apply childs_same; exact He|].
+    intros c d _ _ Hcd. apply IH. exact Hcd.
+Qed.
+
+(* whatever two histories produced them, two reachable states with the same content report the same hash
+   on corresponding edges *)
+Theorem content_determines_hash s1 s2 :
+  wf s1 -> Inv s1 -> wf s2 -> Inv s2 -> same_content s1 s2 ->
+  Forall2 (fun a b => e_hash a = e_hash b) (s_edges s1) (s_edges s2).
+Proof.
+  intros W1 I1 W2 I2 HC. pose proof HC as [_ He].
+  pose proof (Forall2_len _ _ _ He) as Hlen.
+  eapply Forall2_weaken; [exact He|]. intros a b Ha Hb Hab.
+  rewrite (hash_unique s1 W1 I1 a Ha), (hash_unique s2 W2 I2 b Hb), Hlen.
+  apply merkle_same; assumption.
+Qed.
